@@ -172,6 +172,8 @@ class Model:
     if self_[0] == "T":
       tab = {"self.go.is_set()": lambda: self.fget(s, self_, "go"),
              "self.halting": lambda: self.fget(s, self_, "halting"),
+             # threading.Thread.is_alive(): started and run() has not returned yet
+             "self.is_alive()": lambda: z3.And(self.fget(s, self_, "started"), z3.Not(self.fget(s, self_, "done"))),
              "self in self.device_manager._threads": lambda: self.in_threads(s, self_[1])}
     else:
       tab = {"self.finished": lambda: s["M.finished"],
